@@ -164,3 +164,1198 @@ pub fn c01(tier: &str) -> Vec<Family> {
     fams.push(Family::new("concurrent_models", TAGS_TIME, sc3).cap(if tier == "quick" { 30_000 } else { 2_000_000 }));
     fams
 }
+
+// ---------------------------------------------------------------------------
+// Shared benches
+// ---------------------------------------------------------------------------
+
+fn with_caps(mut spec: BenchSpec, caps: &[usize]) -> Arc<BenchSpec> {
+    for (i, c) in caps.iter().enumerate() {
+        spec.nodes[i].cap = *c;
+    }
+    Arc::new(spec)
+}
+
+/// A -> B (M1), A -> C (M2); C forwards to B (M3).
+fn triangle() -> BenchSpec {
+    let a = NodeSpec::new("A", 2)
+        .script(1, vec![sendp(0, 2, 10), sendp(1, 3, 20)])
+        .out(vec![to(1)])
+        .out(vec![to(2)]);
+    let b = NodeSpec::new("B", 1);
+    let c = NodeSpec::new("C", 1).script(3, vec![sendp(0, 2, 30)]).out(vec![to(1)]);
+    BenchSpec::new(vec![a, b, c])
+}
+
+/// A sends three messages in a row to B, and one to C which relays through D to B.
+fn long_chain() -> BenchSpec {
+    let a = NodeSpec::new("A", 2)
+        .script(1, vec![sendp(0, 2, 10), sendp(0, 2, 11), sendp(1, 3, 20), sendp(0, 2, 12)])
+        .out(vec![to(1)])
+        .out(vec![to(2)]);
+    let b = NodeSpec::new("B", 1);
+    let c = NodeSpec::new("C", 1).script(3, vec![sendp(0, 3, 1)]).out(vec![to(3)]);
+    let d = NodeSpec::new("D", 1).script(3, vec![sendp(0, 2, 1)]).out(vec![to(1)]);
+    BenchSpec::new(vec![a, b, c, d])
+}
+
+/// S -> {B, C} (one broadcast) -> D.
+fn fan() -> BenchSpec {
+    let s = NodeSpec::new("S", 2).script(1, vec![send(0, 2)]).out(vec![to(1), to(2)]);
+    let b = NodeSpec::new("B", 2)
+        .script(2, vec![sendp(0, 3, 10), sendp(0, 3, 20)])
+        .out(vec![to(3)]);
+    let c = NodeSpec::new("C", 2)
+        .script(2, vec![sendp(0, 3, 30), sendp(0, 3, 40)])
+        .out(vec![to(3)]);
+    let d = NodeSpec::new("D", 1);
+    BenchSpec::new(vec![s, b, c, d])
+}
+
+/// A queries C; while replying C sends to B; then A sends to B.
+fn query_then_send() -> BenchSpec {
+    let a = NodeSpec::new("A", 2)
+        .script(1, vec![query(0, 4), sendp(0, 2, 50)])
+        .req(vec![to(2)])
+        .out(vec![to(1)]);
+    let b = NodeSpec::new("B", 1);
+    let c = NodeSpec::new("C", 1).script(4, vec![sendp(0, 2, 60), sendp(0, 2, 61)]).out(vec![to(1)]);
+    BenchSpec::new(vec![a, b, c])
+}
+
+/// A broadcasts M to {B, C}; C relays to B; afterwards A sends M' to B.
+fn broadcast_relay() -> BenchSpec {
+    let a = NodeSpec::new("A", 2)
+        .script(1, vec![sendp(0, 2, 10), sendp(1, 2, 20)])
+        .out(vec![to(1), to(2)])
+        .out(vec![to(1)]);
+    let b = NodeSpec::new("B", 1);
+    let c = NodeSpec::new("C", 1).script(2, vec![sendp(0, 2, 30)]).out(vec![to(1)]);
+    BenchSpec::new(vec![a, b, c])
+}
+
+/// Two producers P, Q hammer a consumer K (cap 1); K forwards to a buffer.
+fn two_producers() -> BenchSpec {
+    let p = NodeSpec::new("P", 2)
+        .script(1, vec![sendp(0, 2, 1), sendp(0, 2, 2), sendp(0, 2, 3)])
+        .out(vec![to(2)]);
+    let q = NodeSpec::new("Q", 2)
+        .script(1, vec![sendp(0, 2, 101), sendp(0, 2, 102)])
+        .out(vec![to(2)]);
+    let k = NodeSpec::new("K", 1).script(2, vec![send(0, 9)]).out(vec![Conn::Buf { sink: 0, mode: Mode::Plain }]);
+    let mut s = BenchSpec::new(vec![p, q, k]);
+    s.bufs = vec![16];
+    s
+}
+
+// ---------------------------------------------------------------------------
+// C02
+// ---------------------------------------------------------------------------
+
+pub fn c02(tier: &str) -> Vec<Family> {
+    let cap = if tier == "quick" { 60_000 } else { 3_000_000 };
+    let mut sc = vec![];
+    for (name, spec, ncap) in [
+        ("triangle", triangle(), 3usize),
+        ("long_chain", long_chain(), 4),
+        ("query_then_send", query_then_send(), 3),
+        ("broadcast_relay", broadcast_relay(), 3),
+        ("fan", fan(), 4),
+    ] {
+        for c in [1usize, 2] {
+            let caps: Vec<usize> = (0..ncap).map(|_| c).collect();
+            let s = with_caps(spec.clone(), &caps);
+            sc.push(scn(format!("{}/cap{}/1ev", name, c), &s, vec![pe(0, 1, 1)]));
+            sc.push(scn(format!("{}/cap{}/2ev", name, c), &s, vec![pe(0, 1, 1), pe(0, 1, 2)]));
+        }
+    }
+    let tp = Arc::new(two_producers());
+    sc.push(scn(
+        "two_producers/timed",
+        &tp,
+        vec![
+            Cmd::Sched { node: 0, kind: SKind::Once, when: When::Rel(1), tag: 1, val: 0, slot: 0 },
+            Cmd::Sched { node: 1, kind: SKind::Once, when: When::Rel(1), tag: 1, val: 0, slot: 0 },
+            Cmd::Step,
+        ],
+    ));
+    vec![Family::new("causal_graphs", &["causal"], sc).cap(cap)]
+}
+
+// ---------------------------------------------------------------------------
+// C03
+// ---------------------------------------------------------------------------
+
+pub const TAGS_DELIVERY: &[&str] = &[
+    "delivery_dup",
+    "delivery_invented",
+    "delivery_value",
+    "delivery_lost",
+    "sink_content",
+    "sched_missed",
+    "sched_dup",
+];
+
+/// One sender with an output connected through every connection kind.
+fn all_kinds(cap: usize, volume: usize) -> Arc<BenchSpec> {
+    let ops: Vec<Op> = (0..volume).map(|k| sendp(0, 2, k as i64)).collect();
+    let a = NodeSpec::new("A", 4).script(1, ops).out(vec![
+        to(1),
+        tom(2, Mode::Map(1000)),
+        tom(3, Mode::Filter(0)),
+        Conn::Buf { sink: 0, mode: Mode::Plain },
+        Conn::Buf { sink: 1, mode: Mode::Map(7) },
+        Conn::Buf { sink: 2, mode: Mode::Filter(1) },
+    ]);
+    let b = NodeSpec::new("B", cap);
+    let c = NodeSpec::new("C", cap);
+    let d = NodeSpec::new("D", cap);
+    let mut s = BenchSpec::new(vec![a, b, c, d]);
+    s.bufs = vec![64, 64, 64];
+    Arc::new(s)
+}
+
+/// Two senders share a recipient of capacity `cap`, each also feeding a sink
+/// through the same output (the slot freed by the consumer is contended).
+fn contended(cap: usize, volume: usize) -> Arc<BenchSpec> {
+    let ops1: Vec<Op> = (0..volume).map(|k| sendp(0, 2, k as i64)).collect();
+    let ops2: Vec<Op> = (0..volume).map(|k| sendp(0, 2, 100 + k as i64)).collect();
+    let p = NodeSpec::new("P", 2).script(1, ops1).out(vec![to(2), Conn::Buf { sink: 0, mode: Mode::Plain }]);
+    let q = NodeSpec::new("Q", 2).script(1, ops2).out(vec![to(2), Conn::Buf { sink: 1, mode: Mode::Plain }]);
+    let k = NodeSpec::new("K", cap);
+    let mut s = BenchSpec::new(vec![p, q, k]);
+    s.bufs = vec![64, 64];
+    Arc::new(s)
+}
+
+/// Sources and requestors.
+fn sources_bench(cap: usize) -> Arc<BenchSpec> {
+    let a = NodeSpec::new("A", cap)
+        .script(5, vec![query(0, 6)])
+        .req(vec![to(1), tom(2, Mode::Map(3)), tom(1, Mode::Filter(1))]);
+    let b = NodeSpec::new("B", cap);
+    let c = NodeSpec::new("C", cap);
+    let mut s = BenchSpec::new(vec![a, b, c]);
+    s.srcs = vec![vec![to(0), tom(1, Mode::Map(500)), tom(2, Mode::Filter(0))]];
+    s.qsrcs = vec![vec![to(1), tom(2, Mode::Filter(1)), tom(0, Mode::Map(2))]];
+    Arc::new(s)
+}
+
+pub fn c03(tier: &str) -> Vec<Family> {
+    let cap = if tier == "quick" { 40_000 } else { 2_000_000 };
+    let mut sc = vec![];
+    let caps: &[usize] = if tier == "quick" { &[1, 2] } else { &[1, 2, 3, 16] };
+    for &c in caps {
+        let vols: Vec<usize> = if c == 16 { vec![17] } else { (1..=2 * c + 1).collect() };
+        for vol in vols {
+            let s = all_kinds(c, vol);
+            sc.push(scn(format!("all_kinds/cap{}/vol{}", c, vol), &s, vec![pe(0, 1, 0)]));
+            sc.push(scn(format!("all_kinds/cap{}/vol{}/odd", c, vol), &s, vec![pe(0, 1, 1)]));
+        }
+    }
+    for &c in &[1usize, 2] {
+        for vol in 1..=3usize {
+            let s = contended(c, vol);
+            sc.push(scn(
+                format!("contended/cap{}/vol{}", c, vol),
+                &s,
+                vec![
+                    Cmd::Sched { node: 0, kind: SKind::Once, when: When::Rel(1), tag: 1, val: 0, slot: 0 },
+                    Cmd::Sched { node: 1, kind: SKind::Once, when: When::Rel(1), tag: 1, val: 0, slot: 0 },
+                    Cmd::Step,
+                ],
+            ));
+        }
+    }
+    let mut fams = vec![Family::new("port_kinds", TAGS_DELIVERY, sc).cap(cap)];
+
+    // Scheduler-originated batches: k same-time events from one origin into a
+    // mailbox of capacity c (the compound future has to wait for space).
+    let mut sc2 = vec![];
+    for c in [1usize, 2] {
+        let k_node = NodeSpec::new("K", c).script(1, vec![Op::ReadTime]);
+        let other = NodeSpec::new("O", 1).script(1, vec![sendp(0, 1, 50)]).out(vec![to(0)]);
+        let mut spec = BenchSpec::new(vec![k_node, other]);
+        spec.srcs = vec![vec![to(0), tom(0, Mode::Map(10))]];
+        let spec = Arc::new(spec);
+        for k in 1..=(2 * c + 2) {
+            let mut cmds = vec![];
+            for j in 0..k {
+                let kind = match j % 3 {
+                    0 => SKind::Once,
+                    1 => SKind::Keyed,
+                    _ => SKind::Periodic(5),
+                };
+                cmds.push(Cmd::Sched { node: 0, kind, when: When::Rel(1), tag: 1, val: j as i64, slot: j });
+            }
+            cmds.push(Cmd::Sched { node: 1, kind: SKind::Once, when: When::Rel(1), tag: 1, val: 40, slot: 9 });
+            cmds.push(Cmd::SchedSrc { src: 0, kind: SKind::Once, when: When::Rel(1), tag: 1, val: 70, slot: 9 });
+            cmds.push(Cmd::Step);
+            sc2.push(scn(format!("batch/cap{}/k{}", c, k), &spec, cmds));
+        }
+    }
+    fams.push(Family::new("scheduler_batches", TAGS_DELIVERY, sc2).cap(cap));
+
+    let mut sc3 = vec![];
+    for c in [1usize, 2] {
+        let s = sources_bench(c);
+        for v in [0i64, 1] {
+            sc3.push(scn(format!("sources/cap{}/ev{}", c, v), &s, vec![Cmd::ProcSrc { src: 0, tag: 1, val: v }, Cmd::ProcSrc { src: 0, tag: 1, val: v + 2 }]));
+            sc3.push(scn(format!("sources/cap{}/q{}", c, v), &s, vec![Cmd::ProcQSrc { src: 0, tag: 1, val: v }]));
+            sc3.push(scn(format!("sources/cap{}/req{}", c, v), &s, vec![pe(0, 5, v), Cmd::ProcQuery { node: 1, tag: 1, val: v }]));
+            sc3.push(scn(
+                format!("sources/cap{}/sched{}", c, v),
+                &s,
+                vec![
+                    Cmd::SchedSrc { src: 0, kind: SKind::Periodic(1), when: When::Rel(1), tag: 1, val: v, slot: 0 },
+                    Cmd::SchedSrc { src: 0, kind: SKind::Keyed, when: When::Rel(2), tag: 1, val: v + 1, slot: 0 },
+                    Cmd::StepUntil(When::Rel(2)),
+                ],
+            ));
+        }
+    }
+    fams.push(Family::new("sources_and_queries", TAGS_DELIVERY, sc3).cap(cap));
+    fams
+}
+
+// ---------------------------------------------------------------------------
+// C04
+// ---------------------------------------------------------------------------
+
+pub const TAGS_QUIESCENCE: &[&str] = &["half_handler", "pending_send", "delivery_lost", "sched_missed"];
+
+/// Pipeline A -> B -> C with capacity 1 everywhere, `n` items.
+fn pipeline(n: usize) -> Arc<BenchSpec> {
+    let ops: Vec<Op> = (0..n).map(|k| sendp(0, 2, k as i64)).collect();
+    let a = NodeSpec::new("A", 1).script(1, ops).out(vec![to(1)]);
+    let b = NodeSpec::new("B", 1).script(2, vec![sendp(0, 2, 100)]).out(vec![to(2)]);
+    let c = NodeSpec::new("C", 1).script(2, vec![send(0, 9)]).out(vec![Conn::Buf { sink: 0, mode: Mode::Plain }]);
+    let mut s = BenchSpec::new(vec![a, b, c]);
+    s.bufs = vec![32];
+    Arc::new(s)
+}
+
+/// Query fan-out: A queries {B, C, D}; each replier also reports to a buffer.
+fn query_fanout() -> Arc<BenchSpec> {
+    let a = NodeSpec::new("A", 1)
+        .script(1, vec![query(0, 4), sendp(0, 9, 5)])
+        .req(vec![to(1), to(2), to(3)])
+        .out(vec![Conn::Buf { sink: 0, mode: Mode::Plain }]);
+    let mk = |n: &str, k: i64| {
+        NodeSpec::new(n, 1).script(4, vec![sendp(0, 9, k)]).out(vec![Conn::Buf { sink: 0, mode: Mode::Plain }])
+    };
+    let mut s = BenchSpec::new(vec![a, mk("B", 10), mk("C", 20), mk("D", 30)]);
+    s.bufs = vec![32];
+    Arc::new(s)
+}
+
+pub fn c04(tier: &str) -> Vec<Family> {
+    let cap = if tier == "quick" { 60_000 } else { 3_000_000 };
+    let mut sc = vec![];
+    let f = Arc::new(fan());
+    sc.push(scn("fan/1", &f, vec![pe(0, 1, 1)]));
+    sc.push(scn("fan/2", &f, vec![pe(0, 1, 1), pe(0, 1, 2)]));
+    for n in 1..=3 {
+        let p = pipeline(n);
+        sc.push(scn(format!("pipeline/{}", n), &p, vec![pe(0, 1, 0)]));
+    }
+    let q = query_fanout();
+    sc.push(scn("query_fanout", &q, vec![pe(0, 1, 1)]));
+    let tp = Arc::new(two_producers());
+    sc.push(scn(
+        "two_producers",
+        &tp,
+        vec![
+            Cmd::Sched { node: 0, kind: SKind::Once, when: When::Rel(1), tag: 1, val: 0, slot: 0 },
+            Cmd::Sched { node: 1, kind: SKind::Once, when: When::Rel(1), tag: 1, val: 0, slot: 0 },
+            Cmd::Sched { node: 1, kind: SKind::Once, when: When::Rel(2), tag: 1, val: 50, slot: 0 },
+            Cmd::StepUntil(When::Rel(2)),
+        ],
+    ));
+    let t = Arc::new(triangle());
+    sc.push(scn("triangle", &t, vec![pe(0, 1, 1), pe(0, 1, 2)]));
+    vec![Family::new("deterministic_benches", TAGS_QUIESCENCE, sc).cap(cap).invariant().hang_violation()]
+}
+
+// ---------------------------------------------------------------------------
+// C05
+// ---------------------------------------------------------------------------
+
+pub fn c05(tier: &str) -> Vec<Family> {
+    let cap = if tier == "quick" { 40_000 } else { 2_000_000 };
+    let mut sc = vec![];
+    // A model that is suspended on a send to a full mailbox while three other
+    // parties send to it.
+    let hub = NodeSpec::new("H", 2)
+        .script(1, vec![sendp(0, 2, 1), sendp(0, 2, 2), sendp(0, 2, 3)])
+        .script(3, vec![Op::ReadTime])
+        .out(vec![to(1)]);
+    let slow = NodeSpec::new("S", 1).script(2, vec![sendp(0, 3, 100)]).out(vec![to(0)]);
+    let x = NodeSpec::new("X", 1).script(1, vec![sendp(0, 3, 200), sendp(0, 3, 201)]).out(vec![to(0)]);
+    let spec = Arc::new(BenchSpec::new(vec![hub, slow, x]));
+    sc.push(scn(
+        "hub",
+        &spec,
+        vec![
+            Cmd::Sched { node: 0, kind: SKind::Once, when: When::Rel(1), tag: 1, val: 0, slot: 0 },
+            Cmd::Sched { node: 2, kind: SKind::Once, when: When::Rel(1), tag: 1, val: 0, slot: 0 },
+            Cmd::Sched { node: 0, kind: SKind::Once, when: When::Rel(1), tag: 3, val: 7, slot: 0 },
+            Cmd::Step,
+        ],
+    ));
+    for (name, s) in [
+        ("triangle", Arc::new(triangle())),
+        ("fan", Arc::new(fan())),
+        ("query_then_send", Arc::new(query_then_send())),
+        ("two_producers", Arc::new(two_producers())),
+    ] {
+        sc.push(scn(format!("{}/2ev", name), &s, vec![pe(0, 1, 1), pe(0, 1, 2)]));
+    }
+    // Init that sends while others are already sending to the initialising model.
+    let a = NodeSpec::new("A", 1).init(vec![sendc(0, 2, 1), sendc(0, 2, 2)]).out(vec![to(1)]);
+    let b = NodeSpec::new("B", 1).init(vec![sendc(0, 2, 3), sendc(0, 2, 4)]).out(vec![to(0)]);
+    let s = Arc::new(BenchSpec::new(vec![a, b]));
+    sc.push(scn("mutual_init", &s, vec![]));
+    vec![Family::new("isolation", &["overlap", "before_init"], sc).cap(cap)]
+}
+
+// ---------------------------------------------------------------------------
+// C06
+// ---------------------------------------------------------------------------
+
+pub fn c06(tier: &str) -> Vec<Family> {
+    let cap = if tier == "quick" { 40_000 } else { 2_000_000 };
+    let mut sc = vec![];
+    // Query loopbacks.
+    let a = NodeSpec::new("A", 2).script(1, vec![query(0, 4)]).req(vec![to(0)]);
+    sc.push(scn("query_loopback/direct", &Arc::new(BenchSpec::new(vec![a])), vec![pe(0, 1, 1)]));
+    let a = NodeSpec::new("A", 2).script(1, vec![query(0, 4)]).script(5, vec![Op::ReadTime]).req(vec![to(1)]);
+    let b = NodeSpec::new("B", 2).script(4, vec![query(0, 5)]).req(vec![to(0)]);
+    sc.push(scn("query_loopback/transitive", &Arc::new(BenchSpec::new(vec![a, b])), vec![pe(0, 1, 1)]));
+    let a = NodeSpec::new("A", 3).script(1, vec![query(0, 4)]).req(vec![to(0), to(1), to(0)]);
+    let b = NodeSpec::new("B", 1);
+    sc.push(scn("query_loopback/multiple", &Arc::new(BenchSpec::new(vec![a, b])), vec![pe(0, 1, 1)]));
+    // Saturating event loops.
+    for c in 1..=3usize {
+        for extra in 0..=2usize {
+            let ops: Vec<Op> = (0..c + extra).map(|k| sendp(0, 2, k as i64)).collect();
+            let a = NodeSpec::new("A", c).script(1, ops).out(vec![to(0)]);
+            sc.push(scn(
+                format!("self_saturation/cap{}/sends{}", c, c + extra),
+                &Arc::new(BenchSpec::new(vec![a])),
+                vec![pe(0, 1, 0)],
+            ));
+        }
+    }
+    // Two models flooding each other (schedule dependent stalls).
+    for c in 1..=2usize {
+        let a = NodeSpec::new("A", c)
+            .script(1, vec![sendp(0, 2, 1), sendp(0, 2, 2), sendp(0, 2, 3)])
+            .script(2, vec![sendp(0, 3, 10)])
+            .out(vec![to(1)]);
+        let b = NodeSpec::new("B", c)
+            .script(2, vec![sendp(0, 2, 20), sendp(0, 2, 21)])
+            .out(vec![to(0)]);
+        sc.push(scn(format!("mutual_flood/cap{}", c), &Arc::new(BenchSpec::new(vec![a, b])), vec![pe(0, 1, 0)]));
+    }
+    // Orphan mailboxes.
+    for c in 1..=2usize {
+        for k in 1..=3usize {
+            let ops: Vec<Op> = (0..k).map(|j| sendp(0, 2, j as i64)).collect();
+            let a = NodeSpec::new("A", 2).script(1, ops).out(vec![to(1)]);
+            let o = NodeSpec::new("O", c).placement(Placement::Orphan);
+            sc.push(scn(format!("orphan/cap{}/sends{}", c, k), &Arc::new(BenchSpec::new(vec![a, o])), vec![pe(0, 1, 0)]));
+        }
+    }
+    let a = NodeSpec::new("A", 2).script(1, vec![query(0, 4)]).req(vec![to(1)]);
+    let o = NodeSpec::new("O", 1).placement(Placement::Orphan);
+    sc.push(scn("orphan/query", &Arc::new(BenchSpec::new(vec![a, o])), vec![pe(0, 1, 0)]));
+    // Orphan + healthy recipient, and orphan + stalled model (deadlock wins).
+    let a = NodeSpec::new("A", 2)
+        .script(1, vec![sendp(0, 2, 1), sendp(1, 2, 2)])
+        .script(3, vec![sendp(0, 2, 1), query(0, 4)])
+        .out(vec![to(1)])
+        .out(vec![to(2)])
+        .req(vec![to(0)]);
+    let o = NodeSpec::new("O", 2).placement(Placement::Orphan);
+    let b = NodeSpec::new("B", 1);
+    let spec = Arc::new(BenchSpec::new(vec![a, o, b]));
+    sc.push(scn("orphan_plus_healthy", &spec, vec![pe(0, 1, 0)]));
+    sc.push(scn("orphan_plus_deadlock", &spec, vec![pe(0, 3, 0)]));
+    // Sub-models (depth 1 and 2) that stall.
+    let p = NodeSpec::new("parent", 2).script(1, vec![send(0, 1)]).out(vec![to(1)]);
+    let ch = NodeSpec::new("child", 2).parent(0).script(1, vec![query(0, 4)]).req(vec![to(1)]);
+    sc.push(scn("submodel_stall/depth1", &Arc::new(BenchSpec::new(vec![p, ch])), vec![pe(0, 1, 1)]));
+    let p = NodeSpec::new("parent", 2).script(1, vec![send(0, 1)]).out(vec![to(1)]);
+    let ch = NodeSpec::new("child", 2).parent(0).script(1, vec![send(0, 1)]).out(vec![to(2)]);
+    let gc = NodeSpec::new("grandchild", 1)
+        .parent(1)
+        .script(1, vec![sendp(0, 2, 1), sendp(0, 2, 2), sendp(0, 2, 3)])
+        .out(vec![to(2)]);
+    sc.push(scn("submodel_stall/depth2", &Arc::new(BenchSpec::new(vec![p, ch, gc])), vec![pe(0, 1, 1)]));
+    let p = NodeSpec::new("", 2).script(1, vec![send(0, 1)]).out(vec![to(1)]);
+    let ch = NodeSpec::new("", 1).parent(0).script(1, vec![query(0, 4)]).req(vec![to(1)]);
+    sc.push(scn("submodel_stall/unnamed", &Arc::new(BenchSpec::new(vec![p, ch])), vec![pe(0, 1, 1)]));
+    // Stall during init.
+    let a = NodeSpec::new("A", 1).init(vec![sendc(0, 2, 1), sendc(0, 2, 2)]).out(vec![to(0)]);
+    sc.push(scn("init_stall", &Arc::new(BenchSpec::new(vec![a])), vec![]));
+    // Stall in a timed step, then healthy benches (never lossy).
+    let a = NodeSpec::new("A", 1).script(1, vec![query(0, 4)]).req(vec![to(0)]);
+    sc.push(scn(
+        "timed_stall",
+        &Arc::new(BenchSpec::new(vec![a])),
+        vec![
+            Cmd::Sched { node: 0, kind: SKind::Once, when: When::Rel(2), tag: 1, val: 0, slot: 0 },
+            Cmd::StepUntil(When::Rel(3)),
+        ],
+    ));
+    for (name, s) in [
+        ("healthy/fan", Arc::new(fan())),
+        ("healthy/triangle", Arc::new(triangle())),
+        ("healthy/query_fanout", query_fanout()),
+        ("healthy/pipeline", pipeline(3)),
+    ] {
+        sc.push(scn(name, &s, vec![pe(0, 1, 1), pe(0, 1, 2)]));
+    }
+    vec![Family::new("stall_reports", &["report_exact"], sc).cap(cap)]
+}
+
+// ---------------------------------------------------------------------------
+// C07
+// ---------------------------------------------------------------------------
+
+pub fn c07(tier: &str) -> Vec<Family> {
+    let cap = if tier == "quick" { 20_000 } else { 1_000_000 };
+    // A: target; its handlers are trivial. B: another target. O: a model that
+    // schedules several same-time events on itself from one handler.
+    let a = NodeSpec::new("A", 1).script(1, vec![Op::ReadTime]);
+    let b = NodeSpec::new("B", 1);
+    let o = NodeSpec::new("O", 2)
+        .script(
+            7,
+            vec![
+                sched_self(SKind::Once, When::Rel(1), 1, 5),
+                sched_self(SKind::Periodic(1), When::Rel(1), 1, 5),
+                sched_self(SKind::Keyed, When::Rel(1), 1, 5),
+                sched_self(SKind::Once, When::Rel(2), 1, 5),
+            ],
+        )
+        .script(1, vec![sendp(0, 1, 500)])
+        .out(vec![to(0)]);
+    let mut spec = BenchSpec::new(vec![a, b, o]);
+    spec.srcs = vec![vec![to(0)]];
+    let spec = Arc::new(spec);
+    use Cmd::*;
+    let alpha: Vec<Cmd> = vec![
+        Sched { node: 0, kind: SKind::Once, when: When::Abs(2), tag: 1, val: 1, slot: 0 },
+        Sched { node: 0, kind: SKind::Keyed, when: When::Abs(2), tag: 1, val: 2, slot: 1 },
+        Sched { node: 0, kind: SKind::Periodic(1), when: When::Abs(1), tag: 1, val: 3, slot: 0 },
+        SchedSrc { src: 0, kind: SKind::Once, when: When::Abs(2), tag: 1, val: 4, slot: 0 },
+        Sched { node: 1, kind: SKind::Once, when: When::Abs(2), tag: 1, val: 5, slot: 0 },
+        Sched { node: 0, kind: SKind::Once, when: When::Abs(3), tag: 1, val: 6, slot: 0 },
+        SchedSrc { src: 0, kind: SKind::Periodic(2), when: When::Abs(1), tag: 1, val: 7, slot: 0 },
+        Step,
+    ];
+    let depth = if tier == "quick" { 4 } else { 5 };
+    let mut sc = vec![];
+    for (i, mut cmds) in seqs(&alpha, depth).into_iter().enumerate() {
+        if cmds.iter().filter(|c| !matches!(c, Step)).count() < 2 {
+            continue;
+        }
+        cmds.push(StepUntil(When::Abs(3)));
+        sc.push(scn(format!("driver#{}", i), &spec, cmds));
+    }
+    let mut fams = vec![Family::new("driver_origin", &["same_origin_order"], sc).cap(cap)];
+    let mut sc2 = vec![];
+    for k in 0..3 {
+        let mut cmds = vec![pe(2, 7, 10 * k)];
+        if k >= 1 {
+            cmds.push(Sched { node: 2, kind: SKind::Once, when: When::Abs(1), tag: 1, val: 77, slot: 0 });
+        }
+        if k >= 2 {
+            cmds.insert(0, Sched { node: 0, kind: SKind::Periodic(1), when: When::Abs(1), tag: 1, val: 88, slot: 0 });
+        }
+        cmds.push(StepUntil(When::Abs(3)));
+        sc2.push(scn(format!("model_origin#{}", k), &spec, cmds));
+    }
+    fams.push(Family::new("model_origin", &["same_origin_order"], sc2).cap(cap));
+    // Batches larger than the mailbox: the compound future has to wait.
+    let mut sc3 = vec![];
+    for c in [1usize, 2] {
+        let a = NodeSpec::new("A", c).script(1, vec![sendp(0, 1, 100)]).out(vec![to(1)]);
+        let b = NodeSpec::new("B", 1);
+        let x = NodeSpec::new("X", 1).script(1, vec![sendp(0, 1, 200)]).out(vec![to(0)]);
+        let spec = Arc::new(BenchSpec::new(vec![a, b, x]));
+        for k in (c + 1)..=(c + 3) {
+            let mut cmds: Vec<Cmd> = (0..k)
+                .map(|j| Sched { node: 0, kind: if j % 2 == 0 { SKind::Once } else { SKind::Keyed }, when: When::Abs(1), tag: 1, val: j as i64, slot: j })
+                .collect();
+            cmds.push(Sched { node: 2, kind: SKind::Once, when: When::Abs(1), tag: 1, val: 50, slot: 9 });
+            cmds.push(Step);
+            sc3.push(scn(format!("overflow/cap{}/k{}", c, k), &spec, cmds));
+        }
+    }
+    fams.push(Family::new("mailbox_overflow", &["same_origin_order", "sched_missed"], sc3).cap(cap));
+    fams
+}
+
+// ---------------------------------------------------------------------------
+// C08
+// ---------------------------------------------------------------------------
+
+pub const TAGS_SCHED: &[&str] = &[
+    "sched_validation",
+    "pending_not_future",
+    "sched_missed",
+    "sched_dup",
+    "sched_wrong_time",
+    "sched_overdue",
+];
+
+pub fn c08(tier: &str) -> Vec<Family> {
+    let _ = tier;
+    // Handler-side requests: tag 20+k performs request k from inside a handler.
+    let whens = [When::Abs(0), When::Abs(1), When::Abs(2), When::Abs(3), When::Rel(0), When::Rel(1)];
+    let kinds = [
+        SKind::Once,
+        SKind::Keyed,
+        SKind::Periodic(0),
+        SKind::Periodic(1),
+        SKind::KeyedPeriodic(0),
+        SKind::KeyedPeriodic(2),
+    ];
+    let mut a = NodeSpec::new("A", 2).script(1, vec![Op::ReadTime]);
+    let mut k = 0u16;
+    let mut handler_tags = vec![];
+    for w in whens {
+        for kd in kinds {
+            a = a.script(20 + k, vec![sched_self(kd, w, 1, (k % 4) as usize)]);
+            handler_tags.push(20 + k);
+            k += 1;
+        }
+    }
+    let mut spec = BenchSpec::new(vec![a]);
+    spec.srcs = vec![vec![to(0)]];
+    let spec = Arc::new(spec);
+    let mut sc = vec![];
+    // Prefixes bring the simulation to time 0, 1 or 2 (with or without pending actions).
+    let prefixes: Vec<(&str, Vec<Cmd>)> = vec![
+        ("t0", vec![]),
+        ("t1", vec![Cmd::StepUntil(When::Abs(1))]),
+        (
+            "t2+pending",
+            vec![
+                Cmd::Sched { node: 0, kind: SKind::Periodic(2), when: When::Abs(2), tag: 1, val: 99, slot: 3 },
+                Cmd::Step,
+            ],
+        ),
+    ];
+    let suffixes: Vec<(&str, Vec<Cmd>)> = vec![
+        ("steps", vec![Cmd::Step, Cmd::Step]),
+        ("until", vec![Cmd::StepUntil(When::Abs(5))]),
+    ];
+    for (pn, pre) in &prefixes {
+        for (sn, suf) in &suffixes {
+            for w in whens {
+                for kd in kinds {
+                    for variant in 0..2 {
+                        let mut cmds = pre.clone();
+                        let c = if variant == 0 {
+                            Cmd::Sched { node: 0, kind: kd, when: w, tag: 1, val: 5, slot: 0 }
+                        } else {
+                            Cmd::SchedSrc { src: 0, kind: kd, when: w, tag: 1, val: 6, slot: 1 }
+                        };
+                        cmds.push(c);
+                        cmds.extend(suf.clone());
+                        sc.push(scn(format!("driver/{}/{}/{:?}/{:?}/v{}", pn, sn, w, kd, variant), &spec, cmds));
+                    }
+                }
+            }
+            for t in &handler_tags {
+                let mut cmds = pre.clone();
+                cmds.push(pe(0, *t, 3));
+                cmds.extend(suf.clone());
+                sc.push(scn(format!("handler/{}/{}/tag{}", pn, sn, t), &spec, cmds));
+            }
+        }
+    }
+    vec![Family::new("request_validation", TAGS_SCHED, sc).hang_violation()]
+}
+
+// ---------------------------------------------------------------------------
+// C09
+// ---------------------------------------------------------------------------
+
+pub fn c09(tier: &str) -> Vec<Family> {
+    let cap = if tier == "quick" { 20_000 } else { 1_000_000 };
+    // A handles events; tag 5 cancels slot 0, tag 6 cancels slot 1 (clone),
+    // tag 7 schedules a keyed periodic event on itself (slot 2), tag 8 cancels slot 2.
+    let a = NodeSpec::new("A", 4)
+        .script(1, vec![Op::ReadTime])
+        .script(5, vec![Op::Cancel { slot: 0 }])
+        .script(6, vec![Op::CancelClone { slot: 1 }])
+        .script(7, vec![sched_self(SKind::KeyedPeriodic(1), When::Rel(1), 1, 2)])
+        .script(8, vec![Op::Cancel { slot: 2 }]);
+    let b = NodeSpec::new("B", 2).script(5, vec![Op::Cancel { slot: 0 }]).script(1, vec![Op::ReadTime]);
+    let mut spec = BenchSpec::new(vec![a, b]);
+    spec.srcs = vec![vec![to(0)], vec![to(1)]];
+    let spec = Arc::new(spec);
+    use Cmd::*;
+    let alpha: Vec<Cmd> = vec![
+        Sched { node: 0, kind: SKind::Keyed, when: When::Abs(2), tag: 1, val: 1, slot: 0 },
+        Sched { node: 0, kind: SKind::KeyedPeriodic(1), when: When::Abs(1), tag: 1, val: 2, slot: 1 },
+        Sched { node: 0, kind: SKind::Once, when: When::Abs(2), tag: 5, val: 3, slot: 9 },
+        Sched { node: 0, kind: SKind::Once, when: When::Abs(2), tag: 6, val: 4, slot: 9 },
+        SchedSrc { src: 0, kind: SKind::Keyed, when: When::Abs(2), tag: 1, val: 5, slot: 0 },
+        SchedSrc { src: 0, kind: SKind::KeyedPeriodic(1), when: When::Abs(1), tag: 1, val: 6, slot: 1 },
+        Sched { node: 1, kind: SKind::Once, when: When::Abs(2), tag: 5, val: 7, slot: 9 },
+        Cancel { slot: 0 },
+        CancelClone { slot: 1 },
+        IntoAuto { slot: 1 },
+        DropAuto { slot: 1 },
+        Step,
+        StepUntil(When::Abs(2)),
+        ProcEvent { node: 0, tag: 7, val: 8 },
+        ProcEvent { node: 0, tag: 8, val: 9 },
+        Sched { node: 0, kind: SKind::Once, when: When::Abs(1), tag: 1, val: 10, slot: 9 },
+    ];
+    let depth = if tier == "quick" { 3 } else { 4 };
+    let mut sc = vec![];
+    for (i, mut cmds) in seqs(&alpha, depth).into_iter().enumerate() {
+        if !cmds.iter().any(|c| matches!(c, Sched { .. } | SchedSrc { .. } | ProcEvent { tag: 7, .. })) {
+            continue;
+        }
+        cmds.push(StepUntil(When::Abs(4)));
+        sc.push(scn(format!("seq#{}", i), &spec, cmds));
+    }
+    vec![Family::new(
+        "cancellation_sequences",
+        &["cancel_ignored", "sched_missed", "sched_dup", "sched_wrong_time"],
+        sc,
+    )
+    .cap(cap)]
+}
+
+// ---------------------------------------------------------------------------
+// C10
+// ---------------------------------------------------------------------------
+
+pub fn c10(tier: &str) -> Vec<Family> {
+    let cap = if tier == "quick" { 5_000 } else { 200_000 };
+    let a = NodeSpec::new("A", 1).script(1, vec![Op::ReadTime]);
+    let b = NodeSpec::new("B", 1).script(1, vec![sched_self(SKind::Periodic(2), When::Rel(1), 2, 0)]);
+    let mut spec = BenchSpec::new(vec![a, b]);
+    spec.srcs = vec![vec![to(0), to(1)]];
+    let spec = Arc::new(spec);
+    use Cmd::*;
+    let series: Vec<Vec<Cmd>> = {
+        let mut v = vec![];
+        for t0 in 1..=3i64 {
+            for p in [1u64, 2, 3, 1_000_000_000] {
+                v.push(vec![Sched { node: 0, kind: SKind::Periodic(p), when: When::Abs(t0), tag: 1, val: t0 * 10 + p as i64 % 7, slot: 0 }]);
+            }
+        }
+        // Two and three coinciding series, different origins (driver, source, model).
+        v.push(vec![
+            Sched { node: 0, kind: SKind::Periodic(2), when: When::Abs(2), tag: 1, val: 1, slot: 0 },
+            Sched { node: 0, kind: SKind::KeyedPeriodic(3), when: When::Abs(3), tag: 1, val: 2, slot: 0 },
+        ]);
+        v.push(vec![
+            Sched { node: 0, kind: SKind::Periodic(1), when: When::Abs(1), tag: 1, val: 1, slot: 0 },
+            SchedSrc { src: 0, kind: SKind::Periodic(2), when: When::Abs(2), tag: 2, val: 2, slot: 0 },
+            ProcEvent { node: 1, tag: 1, val: 3 },
+        ]);
+        v.push(vec![
+            Sched { node: 0, kind: SKind::KeyedPeriodic(2), when: When::Abs(1), tag: 1, val: 1, slot: 0 },
+            Sched { node: 1, kind: SKind::Periodic(2), when: When::Abs(1), tag: 2, val: 2, slot: 1 },
+            SchedSrc { src: 0, kind: SKind::KeyedPeriodic(1), when: When::Abs(2), tag: 2, val: 3, slot: 1 },
+        ]);
+        v
+    };
+    let moves: Vec<Cmd> = vec![
+        Step,
+        StepUntil(When::Rel(1)),
+        StepUntil(When::Rel(2)),
+        StepUntil(When::Rel(3)),
+        Cancel { slot: 0 },
+    ];
+    let depth = if tier == "quick" { 3 } else { 5 };
+    let partitions = seqs(&moves, depth);
+    let mut sc = vec![];
+    for (si, ser) in series.iter().enumerate() {
+        for (pi, part) in partitions.iter().enumerate() {
+            let mut cmds = ser.clone();
+            cmds.extend(part.clone());
+            sc.push(scn(format!("series{}/partition{}", si, pi), &spec, cmds));
+        }
+    }
+    vec![Family::new(
+        "periodic_partitions",
+        &["sched_missed", "sched_dup", "sched_wrong_time", "step_time", "sched_overdue", "handler_time", "cmd_time"],
+        sc,
+    )
+    .cap(cap)]
+}
+
+// ---------------------------------------------------------------------------
+// C11
+// ---------------------------------------------------------------------------
+
+pub const TAGS_ERRORS: &[&str] = &[
+    "error_class",
+    "report_exact",
+    "term_result",
+    "term_time",
+    "term_activity",
+    "api_panic",
+];
+
+fn c11_spec(timeout_ms: u64) -> Arc<BenchSpec> {
+    // A: top-level model with fault scripts; A.S: sub-model with fault scripts;
+    // G: dropped mailbox (NoRecipient); O: orphan (MessageLoss).
+    let faults = |n: NodeSpec| -> NodeSpec {
+        n.script(1, vec![Op::ReadTime])
+            .script(10, vec![Op::Panic(PanicKind::Str)])
+            .script(11, vec![Op::Panic(PanicKind::String)])
+            .script(12, vec![Op::Panic(PanicKind::Custom)])
+            .script(13, vec![sendc(0, 1, 5)]) // to the dropped mailbox
+            .script(14, vec![sendc(1, 1, 6)]) // to the orphan
+            .script(15, vec![query(0, 1)]) // query loopback => deadlock
+            .script(16, vec![Op::Block(400)])
+            .script(17, vec![sendc(2, 10, 0)]) // make the sub-model panic
+            .script(18, vec![sched_self(SKind::Once, When::Rel(1), 10, 0)]) // panic at the next step
+    };
+    let a = faults(NodeSpec::new("A", 4)).out(vec![to(2)]).out(vec![to(3)]).out(vec![to(1)]).req(vec![to(0)]);
+    let s = faults(NodeSpec::new("S", 4).parent(0)).out(vec![to(2)]).out(vec![to(3)]).out(vec![to(1)]).req(vec![to(1)]);
+    let g = NodeSpec::new("G", 1).placement(Placement::Dropped);
+    let o = NodeSpec::new("O", 2).placement(Placement::Orphan);
+    let mut spec = BenchSpec::new(vec![a, s, g, o]);
+    spec.srcs = vec![vec![to(0)], vec![to(2)]];
+    spec.qsrcs = vec![vec![to(0)]];
+    spec.timeout_ms = timeout_ms;
+    Arc::new(spec)
+}
+
+fn c11_scenarios(tier: &str, spec: &Arc<BenchSpec>, with_timeout: bool) -> Vec<Scenario> {
+    use Cmd::*;
+    // Fault-injecting commands.
+    let mut faults: Vec<(&str, Cmd)> = vec![
+        ("panic_str", pe(0, 10, 0)),
+        ("panic_string", pe(0, 11, 0)),
+        ("panic_custom", pe(1, 12, 0)),
+        ("panic_sub_via_parent", pe(0, 17, 0)),
+        ("norecipient_model", pe(0, 13, 0)),
+        ("norecipient_submodel", pe(1, 13, 0)),
+        ("norecipient_source", ProcSrc { src: 1, tag: 1, val: 0 }),
+        ("message_loss", pe(0, 14, 0)),
+        ("deadlock", pe(1, 15, 0)),
+        ("panic_in_query", ProcQuery { node: 0, tag: 10, val: 0 }),
+        ("bad_query", ProcQuery { node: 3, tag: 1, val: 0 }),
+        ("invalid_deadline", StepUntil(When::Abs(-1))),
+    ];
+    if with_timeout {
+        faults = vec![("timeout", pe(0, 16, 0)), ("timeout_sub", pe(1, 16, 0))];
+    }
+    // Timed faults (fault happens inside step / step_until).
+    let timed: Vec<(&str, Vec<Cmd>)> = if with_timeout {
+        vec![("timeout_in_step", vec![Sched { node: 0, kind: SKind::Once, when: When::Rel(1), tag: 16, val: 0, slot: 0 }, Step])]
+    } else {
+        vec![
+            ("panic_in_step", vec![Sched { node: 0, kind: SKind::Once, when: When::Rel(1), tag: 10, val: 0, slot: 0 }, Step]),
+            ("panic_in_step_until", vec![Sched { node: 1, kind: SKind::Once, when: When::Rel(1), tag: 11, val: 0, slot: 0 }, StepUntil(When::Rel(2))]),
+            ("norecipient_sched_source", vec![SchedSrc { src: 1, kind: SKind::Once, when: When::Rel(1), tag: 1, val: 0, slot: 0 }, Step]),
+            ("deadlock_in_step", vec![Sched { node: 0, kind: SKind::Once, when: When::Rel(1), tag: 15, val: 0, slot: 0 }, StepUntil(When::Rel(1))]),
+            ("self_scheduled_panic", vec![pe(0, 18, 0), Step]),
+        ]
+    };
+    let follow: Vec<Cmd> = vec![
+        Step,
+        StepUntil(When::Rel(1)),
+        pe(0, 1, 1),
+        ProcQuery { node: 0, tag: 1, val: 1 },
+        ProcSrc { src: 0, tag: 1, val: 1 },
+    ];
+    let fdepth = if tier == "quick" { 2 } else { 3 };
+    let mut follows = vec![vec![]];
+    follows.extend(seqs(&follow, if with_timeout { 1 } else { fdepth }));
+    // Prefix: with an empty or non-empty scheduler queue, fault at position 0..2.
+    let prefixes: Vec<(&str, Vec<Cmd>)> = vec![
+        ("empty", vec![]),
+        ("pending", vec![Sched { node: 0, kind: SKind::Periodic(1), when: When::Rel(2), tag: 1, val: 9, slot: 0 }]),
+        ("pending+step", vec![Sched { node: 0, kind: SKind::Periodic(1), when: When::Rel(1), tag: 1, val: 9, slot: 0 }, Step, pe(0, 1, 3)]),
+    ];
+    let mut sc = vec![];
+    for (pn, pre) in &prefixes {
+        for (fname, fcmds) in faults
+            .iter()
+            .map(|(n, c)| (*n, vec![c.clone()]))
+            .chain(timed.iter().map(|(n, c)| (*n, c.clone())))
+        {
+            for (k, fo) in follows.iter().enumerate() {
+                let mut cmds = pre.clone();
+                cmds.extend(fcmds.clone());
+                cmds.extend(fo.clone());
+                sc.push(scn(format!("{}/{}/follow{}", pn, fname, k), spec, cmds));
+            }
+        }
+    }
+    sc
+}
+
+pub fn c11(tier: &str) -> Vec<Family> {
+    let spec = c11_spec(0);
+    let sc = c11_scenarios(tier, &spec, false);
+    let mut fams = vec![Family::new("fault_sequences_st", TAGS_ERRORS, sc).cap(2_000)];
+    let sc_mt = c11_scenarios(tier, &spec, false);
+    fams.push(Family::new("fault_sequences_mt", TAGS_ERRORS, sc_mt).uncontrolled(2, 1));
+    // Init faults.
+    let mut sc_init = vec![];
+    for (name, op) in [
+        ("panic", Op::Panic(PanicKind::Str)),
+        ("norecipient", sendc(0, 1, 1)),
+    ] {
+        let a = NodeSpec::new("A", 2).out(vec![to(2)]);
+        let s = NodeSpec::new("S", 2).parent(0).init(vec![op]).out(vec![to(2)]);
+        let g = NodeSpec::new("G", 1).placement(Placement::Dropped);
+        sc_init.push(scn(format!("init_{}", name), &Arc::new(BenchSpec::new(vec![a, s, g])), vec![]));
+    }
+    fams.push(Family::new("init_faults", TAGS_ERRORS, sc_init));
+    // Clock lag above tolerance.
+    let mut sc_oos = vec![];
+    for k in 1..=2usize {
+        let mut sp = (*c11_spec(0)).clone();
+        let mut answers = vec![None; k];
+        answers.push(Some(5_000_000));
+        sp.clock = ClockSpec { answers };
+        sp.tolerance_ns = Some(1_000_000);
+        let sp = Arc::new(sp);
+        for fo in [vec![], vec![Cmd::Step], vec![Cmd::StepUntil(When::Rel(1)), pe(0, 1, 1)], vec![pe(0, 1, 1), Cmd::Step]] {
+            let mut cmds = vec![
+                Cmd::Sched { node: 0, kind: SKind::Periodic(1), when: When::Rel(1), tag: 1, val: 9, slot: 0 },
+                Cmd::Step,
+                Cmd::Step,
+            ];
+            cmds.extend(fo);
+            sc_oos.push(scn(format!("out_of_sync/at{}", k), &sp, cmds));
+        }
+    }
+    fams.push(Family::new("out_of_sync", TAGS_ERRORS, sc_oos));
+    // Timeouts (wall-clock: few scenarios).
+    let tspec = c11_spec(60);
+    let sc_t = c11_scenarios(tier, &tspec, true);
+    let n_t = if tier == "quick" { 6 } else { sc_t.len() };
+    let sc_t: Vec<Scenario> = sc_t.into_iter().take(n_t).collect();
+    fams.push(Family::new("timeouts_st", TAGS_ERRORS, sc_t).cap(1));
+    let sc_t2 = c11_scenarios(tier, &tspec, true);
+    let sc_t2: Vec<Scenario> = sc_t2.into_iter().take(n_t).collect();
+    fams.push(Family::new("timeouts_mt", TAGS_ERRORS, sc_t2).uncontrolled(2, 1));
+    fams
+}
+
+// ---------------------------------------------------------------------------
+// C14
+// ---------------------------------------------------------------------------
+
+pub fn c14(tier: &str) -> Vec<Family> {
+    let cap = if tier == "quick" { 20_000 } else { 1_000_000 };
+    let modes = [Mode::Plain, Mode::Map(1), Mode::Filter(0), Mode::Filter(1)];
+    let maxn = if tier == "quick" { 3 } else { 4 };
+    let mut sc = vec![];
+    let mut combos: Vec<Vec<Mode>> = vec![vec![]];
+    let mut layer: Vec<Vec<Mode>> = vec![vec![]];
+    for _ in 0..maxn {
+        let mut next = vec![];
+        for c in &layer {
+            for m in modes {
+                let mut c2 = c.clone();
+                c2.push(m);
+                next.push(c2);
+            }
+        }
+        combos.extend(next.iter().cloned());
+        layer = next;
+    }
+    for (ci, combo) in combos.iter().enumerate() {
+        // Requester A (node 0), repliers R1..Rn (each also pokes a sink so
+        // that completions interleave).
+        let conns: Vec<Conn> = combo.iter().enumerate().map(|(i, m)| tom(i + 1, *m)).collect();
+        let a = NodeSpec::new("A", 1).script(1, vec![query(0, 4), query(0, 4)]).req(vec![conns.clone()].concat());
+        let mut nodes = vec![a];
+        for i in 0..combo.len() {
+            nodes.push(
+                NodeSpec::new(&format!("R{}", i + 1), 1)
+                    .script(4, vec![sendp(0, 9, i as i64)])
+                    .out(vec![Conn::Buf { sink: 0, mode: Mode::Plain }]),
+            );
+        }
+        let mut spec = BenchSpec::new(nodes);
+        spec.bufs = vec![64];
+        spec.qsrcs = vec![conns];
+        let spec = Arc::new(spec);
+        for v in [0i64, 1] {
+            sc.push(scn(format!("requestor/combo{}/v{}", ci, v), &spec, vec![pe(0, 1, v)]));
+            sc.push(scn(format!("qsource/combo{}/v{}", ci, v), &spec, vec![Cmd::ProcQSrc { src: 0, tag: 4, val: v }]));
+        }
+    }
+    let mut fams = vec![Family::new(
+        "query_replies",
+        &["replies", "replies_early", "delivery_dup", "delivery_invented", "delivery_lost", "delivery_value"],
+        sc,
+    )
+    .cap(cap)];
+    // Port clones share one connection list.
+    let x = NodeSpec::new("X", 2)
+        .script(1, vec![Op::Connect { port: 0, target: 3 }, send(1, 2)])
+        .script(3, vec![sendp(0, 5, 7)])
+        .out(vec![to(2)])
+        .out(vec![to(1)]);
+    let mut y = NodeSpec::new("Y", 2).script(2, vec![sendp(0, 5, 100)]).script(4, vec![Op::Connect { port: 0, target: 3 }, send(1, 3)]).out(vec![]).out(vec![to(0)]);
+    // Y's port 0 is replaced by a clone of X's port 0 below: share_out appends
+    // the clone as the *last* port, so Y uses port index 2.
+    y.share_out = Some((0, 0));
+    let y = y.script(2, vec![sendp(2, 5, 100)]).script(4, vec![Op::Connect { port: 2, target: 3 }, send(1, 3)]);
+    let b = NodeSpec::new("B", 2);
+    let c = NodeSpec::new("C", 2);
+    let spec = Arc::new(BenchSpec::new(vec![x, y, b, c]));
+    let sc2 = vec![
+        scn("clone/connect_on_original_send_on_clone", &spec, vec![pe(0, 1, 1)]),
+        scn("clone/connect_on_clone_send_on_original", &spec, vec![pe(1, 4, 1)]),
+        scn("clone/both", &spec, vec![pe(0, 1, 1), pe(1, 4, 2), pe(1, 2, 3)]),
+        scn("clone/send_before_connect", &spec, vec![pe(1, 2, 3), pe(0, 1, 1), pe(1, 2, 4)]),
+    ];
+    fams.push(Family::new("port_clones", &["delivery_lost", "delivery_invented", "delivery_dup"], sc2).cap(cap));
+    fams
+}
+
+// ---------------------------------------------------------------------------
+// C16
+// ---------------------------------------------------------------------------
+
+pub fn c16(tier: &str) -> Vec<Family> {
+    let cap = if tier == "quick" { 20_000 } else { 1_000_000 };
+    let mut sc = vec![];
+    // Hierarchies given as parent vectors; every model's init sends an event
+    // to the next model (cyclically) and, for odd indices, queries the
+    // previous one.
+    let shapes: Vec<(&str, Vec<Option<usize>>)> = vec![
+        ("flat2", vec![None, None]),
+        ("flat3", vec![None, None, None]),
+        ("depth1", vec![None, Some(0)]),
+        ("depth1x2", vec![None, Some(0), Some(0)]),
+        ("depth2", vec![None, Some(0), Some(1)]),
+        ("depth3", vec![None, Some(0), Some(1), Some(2)]),
+        ("two_trees", vec![None, Some(0), None, Some(2)]),
+    ];
+    for (name, parents) in shapes {
+        for c in [1usize, 2] {
+            for variant in 0..3 {
+                let n = parents.len();
+                let mut nodes = vec![];
+                for i in 0..n {
+                    let next = (i + 1) % n;
+                    let prev = (i + n - 1) % n;
+                    let mut init = vec![sendc(0, 1, i as i64), sendc(0, 1, 10 + i as i64)];
+                    if variant == 1 && i % 2 == 1 {
+                        init.push(Op::Query { port: 0, tag: 2, val: Val::C(20 + i as i64) });
+                    }
+                    if variant == 2 {
+                        init = vec![sendc(1, 1, 30 + i as i64), sendc(0, 1, 40 + i as i64)];
+                    }
+                    let mut ns = NodeSpec::new(&format!("m{}", i), c)
+                        .init(init)
+                        .script(1, vec![Op::ReadTime])
+                        .out(vec![to(next)])
+                        .out(vec![to(prev)])
+                        .req(vec![to(prev)]);
+                    ns.parent = parents[i];
+                    nodes.push(ns);
+                }
+                let spec = Arc::new(BenchSpec::new(nodes));
+                sc.push(scn(format!("{}/cap{}/v{}", name, c, variant), &spec, vec![pe(0, 1, 99)]));
+            }
+        }
+    }
+    // Names in error reports: a sub-model panics / has no recipient / stalls.
+    let p = NodeSpec::new("top", 2).script(1, vec![send(0, 1)]).out(vec![to(1)]);
+    let ch = NodeSpec::new("mid", 2).parent(0).script(1, vec![send(0, 1)]).out(vec![to(2)]);
+    let gc = NodeSpec::new("leaf", 2)
+        .parent(1)
+        .script(1, vec![Op::Panic(PanicKind::Str)])
+        .script(2, vec![sendc(0, 1, 1)])
+        .script(3, vec![query(0, 1)])
+        .out(vec![to(3)])
+        .req(vec![to(2)]);
+    let g = NodeSpec::new("gone", 1).placement(Placement::Dropped);
+    let spec = Arc::new(BenchSpec::new(vec![p, ch, gc, g]));
+    sc.push(scn("names/panic", &spec, vec![pe(0, 1, 1)]));
+    sc.push(scn("names/norecipient", &spec, vec![pe(2, 2, 1)]));
+    sc.push(scn("names/deadlock", &spec, vec![pe(2, 3, 1)]));
+    vec![Family::new(
+        "hierarchies",
+        &[
+            "init_twice",
+            "init_late",
+            "init_foreign",
+            "init_missing",
+            "before_init",
+            "name",
+            "delivery_lost",
+            "delivery_dup",
+            "error_class",
+            "report_exact",
+        ],
+        sc,
+    )
+    .cap(cap)]
+}
+
+// ---------------------------------------------------------------------------
+// C17 (model-level part)
+// ---------------------------------------------------------------------------
+
+pub fn c17(tier: &str) -> Vec<Family> {
+    let cap = if tier == "quick" { 20_000 } else { 1_000_000 };
+    let mut sc = vec![];
+    for k in 1..=5usize {
+        let ops: Vec<Op> = (0..k).map(|j| sendp(0, 2, j as i64)).collect();
+        let a = NodeSpec::new("A", 2).script(1, ops).out(vec![
+            Conn::Buf { sink: 0, mode: Mode::Plain },
+            to(1),
+            Conn::Buf { sink: 1, mode: Mode::Map(50) },
+            Conn::Slot { sink: 0, mode: Mode::Plain },
+        ]);
+        let b = NodeSpec::new("B", 1).script(2, vec![sendp(0, 3, 1000)]).out(vec![Conn::Buf { sink: 0, mode: Mode::Plain }]);
+        let mut spec = BenchSpec::new(vec![a, b]);
+        spec.bufs = vec![64, 64];
+        spec.slots = 1;
+        let spec = Arc::new(spec);
+        sc.push(scn(format!("emit{}", k), &spec, vec![pe(0, 1, 0)]));
+        sc.push(scn(format!("emit{}x2", k), &spec, vec![pe(0, 1, 0), pe(0, 1, 100)]));
+    }
+    vec![Family::new("model_to_sink", &["sink_order", "sink_content"], sc).cap(cap)]
+}
+
+// ---------------------------------------------------------------------------
+// C18
+// ---------------------------------------------------------------------------
+
+pub const TAGS_SYNC: &[&str] = &[
+    "sync_init",
+    "sync_monotone",
+    "sync_spurious",
+    "sync_before_done",
+    "sync_extra",
+    "sync_missing",
+    "step_time",
+    "oos_code_ran",
+    "error_class",
+    "term_result",
+];
+
+pub fn c18(tier: &str) -> Vec<Family> {
+    let a = NodeSpec::new("A", 2)
+        .script(1, vec![Op::ReadTime])
+        .script(2, vec![sched_self(SKind::Once, When::Rel(1), 1, 0), send(0, 1)])
+        .out(vec![to(1)]);
+    let b = NodeSpec::new("B", 1).script(1, vec![Op::ReadTime]);
+    let base = BenchSpec::new(vec![a, b]);
+    use Cmd::*;
+    let alpha: Vec<Cmd> = vec![
+        Step,
+        StepUntil(When::Rel(1)),
+        StepUntil(When::Rel(2)),
+        StepUntil(When::Rel(0)),
+        Sched { node: 0, kind: SKind::Once, when: When::Rel(1), tag: 1, val: 1, slot: 0 },
+        Sched { node: 0, kind: SKind::Once, when: When::Rel(2), tag: 2, val: 2, slot: 0 },
+        Sched { node: 1, kind: SKind::Periodic(1), when: When::Rel(2), tag: 1, val: 3, slot: 0 },
+        ProcEvent { node: 0, tag: 2, val: 4 },
+    ];
+    let depth = if tier == "quick" { 4 } else { 5 };
+    let sequences = seqs(&alpha, depth);
+    // Clock scripts: position of a lag among the first calls, tolerance or not.
+    let mut clocks: Vec<(String, ClockSpec, Option<u64>)> = vec![("sync".into(), ClockSpec { answers: vec![] }, None)];
+    for pos in 0..4usize {
+        for (lag, tol, name) in [
+            (5_000u64, Some(1_000u64), "above"),
+            (1_000, Some(1_000), "equal"),
+            (5_000, None, "no_tolerance"),
+            (500, Some(1_000), "below"),
+        ] {
+            let mut answers = vec![None; pos];
+            answers.push(Some(lag));
+            clocks.push((format!("lag_{}@{}", name, pos), ClockSpec { answers }, tol));
+        }
+    }
+    let mut sc = vec![];
+    for (cname, clock, tol) in &clocks {
+        let mut sp = base.clone();
+        sp.clock = clock.clone();
+        sp.tolerance_ns = *tol;
+        let sp = Arc::new(sp);
+        // The full sequence set for the nominal clock, a thinned one for the others.
+        for (i, cmds) in sequences.iter().enumerate() {
+            if cname != "sync" && tier == "quick" && cmds.len() > 3 {
+                continue;
+            }
+            sc.push(scn(format!("{}/seq#{}", cname, i), &sp, cmds.clone()));
+        }
+    }
+    vec![Family::new("clock_gating", TAGS_SYNC, sc).cap(5_000)]
+}
+
+// ---------------------------------------------------------------------------
+// C19
+// ---------------------------------------------------------------------------
+
+pub const TAGS_DROP: &[&str] = &["leak", "double_drop", "model_drop", "code_after_drop", "api_panic"];
+
+pub fn c19(tier: &str) -> Vec<Family> {
+    let cap = if tier == "quick" { 10_000 } else { 500_000 };
+    let mut sc = vec![];
+    // For every bench: a driver sequence, with DropSim inserted at every position.
+    let mut benches: Vec<(&str, Arc<BenchSpec>, Vec<Cmd>)> = vec![];
+    benches.push(("fan", Arc::new(fan()), vec![pe(0, 1, 1), pe(0, 1, 2)]));
+    benches.push(("triangle", Arc::new(triangle()), vec![pe(0, 1, 1)]));
+    // Blocked sender + pending query (deadlock), then drop.
+    let a = NodeSpec::new("A", 1)
+        .script(1, vec![sendp(0, 2, 1), sendp(0, 2, 2), sendp(0, 2, 3)])
+        .script(3, vec![query(0, 4)])
+        .out(vec![to(0)])
+        .req(vec![to(0)]);
+    benches.push(("self_flood", Arc::new(BenchSpec::new(vec![a.clone()])), vec![pe(0, 1, 0)]));
+    benches.push(("query_loop", Arc::new(BenchSpec::new(vec![a])), vec![pe(0, 3, 0)]));
+    // Scheduled actions of every kind left in the queue.
+    let a = NodeSpec::new("A", 2).script(1, vec![sched_self(SKind::KeyedPeriodic(1), When::Rel(1), 2, 3), sched_self(SKind::Once, When::Rel(5), 2, 3)]);
+    let b = NodeSpec::new("B", 1).parent(0);
+    let mut spec = BenchSpec::new(vec![a, b]);
+    spec.srcs = vec![vec![to(0), to(1)]];
+    benches.push((
+        "pending_actions",
+        Arc::new(spec),
+        vec![
+            Cmd::Sched { node: 0, kind: SKind::Periodic(2), when: When::Rel(1), tag: 1, val: 1, slot: 0 },
+            Cmd::Sched { node: 1, kind: SKind::Keyed, when: When::Rel(3), tag: 2, val: 2, slot: 0 },
+            Cmd::SchedSrc { src: 0, kind: SKind::KeyedPeriodic(2), when: When::Rel(2), tag: 2, val: 3, slot: 1 },
+            Cmd::Step,
+            Cmd::SchedSrc { src: 0, kind: SKind::Once, when: When::Rel(9), tag: 2, val: 4, slot: 1 },
+            Cmd::StepUntil(When::Rel(2)),
+        ],
+    ));
+    // After a panic, with an orphan holding messages.
+    let a = NodeSpec::new("A", 2)
+        .script(1, vec![sendc(0, 2, 1), sendc(1, 2, 2), Op::Panic(PanicKind::String)])
+        .out(vec![to(1)])
+        .out(vec![to(2)]);
+    let o = NodeSpec::new("O", 2).placement(Placement::Orphan);
+    let b = NodeSpec::new("B", 1).script(2, vec![sendp(0, 3, 1)]).out(vec![to(0)]);
+    benches.push(("after_panic", Arc::new(BenchSpec::new(vec![a, o, b])), vec![pe(0, 1, 0), Cmd::Step]));
+    for (name, spec, cmds) in &benches {
+        for pos in 0..=cmds.len() {
+            let mut c2 = cmds.clone();
+            c2.insert(pos, Cmd::DropSim);
+            sc.push(scn(format!("{}/drop@{}", name, pos), spec, c2));
+        }
+        sc.push(scn(format!("{}/drop@end", name), spec, cmds.clone()));
+    }
+    vec![Family::new("drop_points", TAGS_DROP, sc).cap(cap).hang_violation()]
+}
